@@ -14,7 +14,9 @@ def flat_outs(extras):
 
 
 def spec_c11(h, segs, extras, states):
-    """returns a list of (clause, detail).  The history contains no close()."""
+    """returns a list of (clause, detail).  A close() in the history (token Z) ends a session: it returns within its own event
+    (the C11 generator issues it only where nothing is queued), cancels whatever reconnect was pending and closes the transport
+    without any reconnect being due; a later connect() starts the next session on the same connection object."""
     cfg, rc, script, events = h
     fails = []
     outs = flat_outs(extras)
@@ -68,8 +70,16 @@ def spec_c11(h, segs, extras, states):
         if e.split("~")[0] == "C":
             user_connect_at.add(i)
     t_end = int(states[-1]["t"]) if states else 0
+    zset = {i for i, e in enumerate(events[:len(extras)]) if e.split("~")[0] == "Z" and states[i]["z"] == "d"}
+    seen_z = set()
     for (i, t, name, *a) in outs:
-        if name == "wclose":
+        for z in sorted(zset - seen_z):
+            if z <= i:
+                seen_z.add(z)
+                allowed = None  # close() cancels the reconnect routine
+        if i in zset and name == "wclose":
+            pass  # the transport closed by close(): no reconnect is due
+        elif name == "wclose":
             if rc:
                 allowed = {t, t + WT}
         elif name == "open":
@@ -89,8 +99,20 @@ def spec_c11(h, segs, extras, states):
                 allowed = {t + CT + BT} if rc else None
         elif name == "cfail":
             allowed = None
+    if zset and max(zset) not in seen_z:
+        allowed = None
     if allowed is not None and max(allowed) < t_end:
         fails.append(("retried until one succeeds", f"no _open_connection call at {sorted(allowed)} (history ends at {t_end})"))
+    # --- a failed attempt leaves the connection in the state it was in before it: the pending await chain of the retry task in
+    #     the back-off after attempt k+1 is the one after attempt k (else the routine dies after enough failures) ---------
+    backs = [x.get("rdepth", 0) for i, x in enumerate(extras)
+             if states[i]["c"] == "0" and x.get("rdepth", 0) and any(o[1] == "open" and o[2] == 1 for o in x["raw"])]
+    for a, b, c3 in zip(backs, backs[1:], backs[2:]):
+        if a and a < b < c3:
+            fails.append(("a failing attempt is retried after the back-off interval until one succeeds",
+                          f"the retry task's pending await chain grows with every failed attempt ({a}, {b}, {c3} frames after three "
+                          f"consecutive failures): the state after a failed attempt is not the state before it"))
+            break
     # --- after re-establishment: devices see True, producer sends at once on the new transport -----
     known = {}
     by_time = {}
@@ -173,7 +195,45 @@ def spec_c12(h, segs, extras, states, info, zpos, drains, bound_ms):
         not_closed = [i for i, n in enumerate(info["writers_closed"]) if n == 0]
         if not_closed:
             fails.append(("the transport is closed", f"close() returned but transport(s) {not_closed} were never closed"))
+        # every close() that returns: one I/O timeout per request transmitted meanwhile (each goes out on a received frame or,
+        # at the latest, when the read times out and the connection is re-established), the connect time-out and back-off of
+        # every failed open, one WRITER_TIMEOUT per transport closed meanwhile (C12.close_time_bound is the drains case)
+        tx = fail = wcl = 0
+        for x in extras[zpos:]:
+            for o in x["raw"]:
+                if o[1] == "tx":
+                    tx += 1
+                elif o[1] == "open" and o[2] != 0:
+                    fail += 1
+                elif o[1] == "wclose":
+                    wcl += 1
+        held = any(e.split(":")[0] == "R" for e in h[3][zpos:len(states)])  # a user callback held a frame meanwhile
+        general = (tx + 1) * max(RT, WT) + fail * (CT + BT) + (wcl + 1) * WT
+        if not held and int(last["zt"]) > general:
+            fails.append(("within a time bounded by the I/O timeouts and the number of queued requests",
+                          f"close() took {last['zt']} ms; {tx} request(s) sent, {fail} failed open(s), {wcl} transport(s) closed meanwhile: bound {general} ms"))
         if drains and int(last["zt"]) > bound_ms:
             fails.append(("within a time bounded by the I/O timeouts and the number of queued requests",
                           f"close() took {last['zt']} ms, bound {bound_ms} ms"))
+    # the write queue must not grow while the controller repeats the SAME frame-version table (each received frame sends one
+    # request; an unchanged table asks for none): growth over consecutive identical announcements is the library re-queueing -
+    # distinguishable from finding F1, where the queue just does not get shorter
+    cfg, rc, script, events = h
+    grow = 0
+    prev = None
+    for i in range(zpos + 1, len(states)):
+        tok = events[i].split("~")[0]
+        if tok.startswith("F:v:") and states[i]["c"] == "1" and states[i]["rq"] == "0" and states[i]["p"] == "1":
+            if prev is not None and prev[0] == tok and int(states[i]["q"]) > prev[1]:
+                grow += 1
+                if grow >= 3:
+                    fails.append(("within a time bounded by the I/O timeouts and the number of queued requests",
+                                  f"the write queue grows while close() waits and the controller repeats the same frame-version table "
+                                  f"({tok}): {prev[1]} -> {states[i]['q']} requests at event {i}; every message re-queues requests that were already asked for"))
+                    break
+            elif prev is not None and prev[0] == tok:
+                grow = 0
+            prev = (tok, int(states[i]["q"]))
+        elif tok.split(":")[0] not in ("A",):
+            prev = None
     return fails, not done
